@@ -18,7 +18,7 @@ pub const MAX_MUTATION_NESTING: usize = 64;
 
 ///
 /// refuse a request whose entities are nested deeper than max_nesting, before it is given to the recursive parser
-/// braces inside string literals are ignored
+/// braces inside string literals and comments are ignored
 ///
 pub fn check_nesting(request: &str, max_nesting: usize) -> Result<(), Error> {
     let mut depth: usize = 0;
@@ -37,6 +37,14 @@ pub fn check_nesting(request: &str, max_nesting: usize) -> Result<(), Error> {
         }
         match c {
             '"' => in_string = true,
+            //a comment runs to the end of the line: quotes and braces inside it do not count
+            '/' if chars.clone().next() == Some('/') => {
+                for c in chars.by_ref() {
+                    if c == '\n' || c == '\r' {
+                        break;
+                    }
+                }
+            }
             '{' => {
                 depth += 1;
                 if depth > max_nesting {
